@@ -35,6 +35,7 @@ import (
 type Case struct {
 	Prefix    []string `json:"prefix"` // steps of the httpsrv alphabet
 	Tail      string   `json:"tail"`   // answered to every request after the prefix
+	Cycle     []string `json:"cycle,omitempty"` // when set, repeated for ever after the prefix instead of Tail
 	Method    string   `json:"method"`
 	BodyKind  string   `json:"body_kind"` // none (nil body) | bytes (length known, rewindable) | stream (opaque reader: chunked)
 	BodySize  int      `json:"body_size"`
@@ -64,7 +65,42 @@ func (c Case) script() httpsrv.Script {
 	for _, p := range c.Prefix {
 		s.Prefix = append(s.Prefix, httpsrv.Step(p))
 	}
+	for _, p := range c.Cycle {
+		s.Cycle = append(s.Cycle, httpsrv.Step(p))
+	}
 	return s
+}
+
+// tailClass is tailDesc with cycles reduced to the kinds of step they contain (for the histograms).
+func (c Case) tailClass() string {
+	if len(c.Cycle) == 0 {
+		return c.Tail
+	}
+	var ch, re, keep bool
+	for _, s := range c.Cycle {
+		st := httpsrv.Step(s)
+		ch = ch || st == httpsrv.Challenge
+		keep = keep || st.KeepsMethod()
+		re = re || (st.Redirect() && !st.KeepsMethod())
+	}
+	out := fmt.Sprintf("cycle%d", len(c.Cycle))
+	for _, p := range []struct {
+		on bool
+		n  string
+	}{{ch, "challenge"}, {re, "30x"}, {keep, "307/308"}} {
+		if p.on {
+			out += "+" + p.n
+		}
+	}
+	return out
+}
+
+// tailDesc names what follows the prefix.
+func (c Case) tailDesc() string {
+	if len(c.Cycle) > 0 {
+		return "cycle(" + strings.Join(c.Cycle, ",") + ")"
+	}
+	return c.Tail
 }
 
 // reachable is the part of the script any client can consume: up to and including the first
@@ -104,6 +140,7 @@ type Obs struct {
 	BodyReplayed  bool // a non-empty body was re-sent with a token
 	Outcome       string
 	Err           string
+	Trace         string // the requests as the server saw them
 }
 
 func hasNegotiate(h http.Header) (string, bool) {
@@ -291,13 +328,14 @@ func run(c Case) (evid.Verdict, Obs) {
 		n := srv.Count()
 		stop()
 		o.Requests, o.Outcome = n, "no-return"
-		return evid.Fail("no-return", "Client.Do did not return within 30 s; the server had received %d requests; script %v tail %s", n, c.Prefix, c.Tail), o
+		return evid.Fail("no-return", "Client.Do did not return within 30 s; the server had received %d requests; script %v tail %s", n, c.Prefix, c.tailDesc()), o
 	}
 	stop()
 	recs := srv.Requests()
 	o.Requests = len(recs)
-	ctx := fmt.Sprintf("script %v then %s forever; %s, body %s/%d, SPN %s, ticket etype %d, session etype %d; requests seen:%s", c.Prefix, c.Tail, c.Method, c.BodyKind,
+	ctx := fmt.Sprintf("script %v then %s forever; %s, body %s/%d, SPN %s, ticket etype %d, session etype %d; requests seen:%s", c.Prefix, c.tailDesc(), c.Method, c.BodyKind,
 		c.BodySize, c.SPN, c.TktEType, c.SessEType, describe(recs))
+	o.Trace = ctx
 	if res.pan != nil {
 		return evid.Fail("panic:Client.Do", "Client.Do panicked: %v; %s", res.pan, ctx), o
 	}
@@ -338,6 +376,10 @@ func run(c Case) (evid.Verdict, Obs) {
 		}
 		if r.BodyErr != "" {
 			return evid.Fail("request-body-broken", "request #%d arrived with an incomplete body (%s after %d bytes); %s", r.Seq, r.BodyErr, len(r.Body), ctx), o
+		}
+		if c.Method == http.MethodPost && r.Method == http.MethodPost && !bytes.Equal(r.Body, body) {
+			// whatever led to it (first attempt, answer to a challenge, 307/308 hop): a POST is only ever sent with the caller's body
+			return evid.Fail("post-body:"+bodyDiff(body, r.Body), "request #%d is a POST carrying %d body bytes, the caller's body has %d and they differ; %s", r.Seq, len(r.Body), len(body), ctx), o
 		}
 		if n := len(r.Header.Values("Authorization")); n > 1 {
 			return evid.Fail("authorization:multiple", "request #%d carries %d Authorization headers; %s", r.Seq, n, ctx), o
@@ -411,6 +453,11 @@ func run(c Case) (evid.Verdict, Obs) {
 	last := recs[len(recs)-1]
 	if res.err != nil {
 		o.Outcome = "error:" + errClass(res.err)
+		if errClass(res.err) == "content-length" {
+			// net/http refuses to send a request whose body ends before the announced length: the client handed it a
+			// body that was no longer the caller's
+			return evid.Fail("resend-body:lost", "Do failed because a request it re-sent no longer had the caller's body (%d bytes); %s", len(body), ctx), o
+		}
 		if cause := errorCause(recs); cause == "" {
 			return evid.Fail("error-without-cause:"+errClass(res.err), "every request was answered, no redirect and at most one challenge were involved, the KDC works, yet Do returned an error; %s", ctx), o
 		}
@@ -474,6 +521,8 @@ func sizeClass(n int) string {
 		return "4KiB"
 	case n <= 65536:
 		return "64KiB"
+	case n <= 65537:
+		return "64KiB+1"
 	}
 	return "1MiB"
 }
@@ -481,8 +530,11 @@ func sizeClass(n int) string {
 func count(r *evid.Run, c Case, gen string) {
 	reach := c.reachable()
 	nt := ""
-	nCh, nRe := 0, 0
+	nCh, nRe, nKeep := 0, 0, 0
 	for _, s := range reach {
+		if s.KeepsMethod() {
+			nKeep++
+		}
 		if s == httpsrv.Challenge {
 			nCh++
 		}
@@ -491,19 +543,19 @@ func count(r *evid.Run, c Case, gen string) {
 		}
 	}
 	if nCh+nRe > 0 {
-		nt = fmt.Sprintf("%v|%s|%s|%d|%s|%d|%d|%v|%s", reach, c.Method, c.BodyKind, c.BodySize, c.SPN, c.TktEType, c.SessEType, c.Lazy, c.Via)
+		nt = fmt.Sprintf("%v|%v|%s|%s|%d|%s|%d|%d|%v|%s", reach, c.Cycle, c.Method, c.BodyKind, c.BodySize, c.SPN, c.TktEType, c.SessEType, c.Lazy, c.Via)
 	}
 	end := "ends:" + string(reach[len(reach)-1])
 	if !reach[len(reach)-1].Final() {
-		end = "ends:never(" + c.Tail + ")"
+		end = "ends:never(" + c.tailClass() + ")"
 	}
 	via := "via:Do"
 	if c.Via == "helper" {
 		via = "via:Get/Head/Post"
 	}
 	r.Count(nt, "gen:"+gen, via, "method:"+c.Method, "body:"+c.BodyKind+"/"+sizeClass(c.BodySize), "spn:"+c.SPN, fmt.Sprintf("ticket-etype%d", c.TktEType),
-		fmt.Sprintf("session-etype%d", c.SessEType), fmt.Sprintf("prefix-len%d", len(c.Prefix)), "tail:"+c.Tail, end,
-		fmt.Sprintf("reachable-challenges:%d", min(nCh, 6)), fmt.Sprintf("reachable-redirects:%d", min(nRe, 11)))
+		fmt.Sprintf("session-etype%d", c.SessEType), fmt.Sprintf("prefix-len%d", len(c.Prefix)), "tail:"+c.tailClass(), end,
+		fmt.Sprintf("reachable-challenges:%d", min(nCh, 6)), fmt.Sprintf("reachable-redirects:%d", min(nRe, 11)), fmt.Sprintf("reachable-307/308:%d", min(nKeep, 4)))
 	r.Sample(gen+"/"+end, c)
 }
 
@@ -611,6 +663,32 @@ func rigSelfTest() error {
 			}
 		}
 	}
+	// cycles and the further redirect statuses
+	srv2, err := httpsrv.Start(httpsrv.Script{Prefix: []httpsrv.Step{httpsrv.Redir307Other}, Cycle: []httpsrv.Step{httpsrv.Challenge, httpsrv.Redir308Same, httpsrv.Redir303Same}, Bound: 8},
+		httpsrv.HostSpec{ListenIP: kdc.UniqueIP()}, httpsrv.HostSpec{ListenIP: kdc.UniqueIP()})
+	if err != nil {
+		return fmt.Errorf("rig self-test: %v", err)
+	}
+	defer srv2.Stop()
+	for i, want := range []int{307, 401, 308, 303, 401, 308, 303, 401, 200} {
+		req, _ := http.NewRequest("POST", srv2.URL(0, "/c"), bytes.NewReader(payload[:100]))
+		resp, err := hc.Do(req)
+		if err != nil {
+			return fmt.Errorf("rig self-test: cycle request %d: %v", i+1, err)
+		}
+		io.Copy(io.Discard, resp.Body)
+		resp.Body.Close()
+		wantLoc := ""
+		switch want {
+		case 307:
+			wantLoc = srv2.URL(1, fmt.Sprintf("/hop%d", i+1))
+		case 308, 303:
+			wantLoc = srv2.URL(0, fmt.Sprintf("/hop%d", i+1))
+		}
+		if resp.StatusCode != want || resp.Header.Get("Location") != wantLoc {
+			return fmt.Errorf("rig self-test: cycle reply %d is %d to %q, want %d to %q", i+1, resp.StatusCode, resp.Header.Get("Location"), want, wantLoc)
+		}
+	}
 	recs := srv.Requests()
 	if len(recs) != 10 {
 		return fmt.Errorf("rig self-test: %d records", len(recs))
@@ -627,17 +705,32 @@ func rigSelfTest() error {
 var weightedSteps = []httpsrv.Step{httpsrv.Challenge, httpsrv.Challenge, httpsrv.Challenge, httpsrv.RedirSame, httpsrv.RedirSame, httpsrv.RedirOther, httpsrv.RedirOther,
 	httpsrv.OK, httpsrv.Reject, httpsrv.Basic, httpsrv.Error500}
 
-func allScripts(maxLen int) [][]string {
-	out := [][]string{{}}
+var (
+	weightedAll = append(append([]httpsrv.Step{}, weightedSteps...), httpsrv.MoreRedirects...)
+	// steps after which a client goes on: only these make a cycle differ from a prefix
+	nonFinal = []httpsrv.Step{httpsrv.Challenge, httpsrv.Challenge, httpsrv.RedirSame, httpsrv.RedirOther, httpsrv.Redir307Same, httpsrv.Redir307Other, httpsrv.Redir308Same,
+		httpsrv.Redir303Same, httpsrv.Redir301Other}
+)
+
+func allScripts(maxLen int) [][]string { return scriptsOver(httpsrv.Alphabet, 0, maxLen) }
+
+// scriptsOver lists every sequence over alpha whose length lies in [minLen, maxLen].
+func scriptsOver(alpha []httpsrv.Step, minLen, maxLen int) [][]string {
+	out := [][]string{}
+	if minLen == 0 {
+		out = append(out, []string{})
+	}
 	level := [][]string{{}}
 	for l := 1; l <= maxLen; l++ {
 		var next [][]string
 		for _, p := range level {
-			for _, s := range httpsrv.Alphabet {
+			for _, s := range alpha {
 				next = append(next, append(append([]string{}, p...), string(s)))
 			}
 		}
-		out = append(out, next...)
+		if l >= minLen {
+			out = append(out, next...)
+		}
 		level = next
 	}
 	return out
@@ -662,7 +755,7 @@ func TestProp(t *testing.T) {
 	methods := []string{"GET", "HEAD", "POST"}
 	sizes := []int{0, 1, 4096, 65536, 1 << 20}
 	spns := []string{"explicit", "derived-ip", "derived-localhost"}
-	r.Rule("script: rapid-drawn server scripts (prefix of 0..5 steps over {200, 401 Negotiate, 401 Negotiate+reject token, 401 Basic, 302 same host, 302 other host, 500}, weighted towards challenges and redirects, then a constant tail) x method {GET, HEAD, POST} x body {none, known-length, opaque stream} x size {0, 1, 4 KiB, 64 KiB, 1 MiB} x SPN {explicit, derived from an IP URL, derived from a localhost URL} x ticket etype (6) x session etype (6) x login {before, lazily} x entry point {Do, Get/Head/Post}; non-trivial = the part of the script a client can reach (up to the first 200/500/401-Basic/401-reject) contains a 401 Negotiate or a redirect")
+	r.Rule("script: rapid-drawn server scripts (prefix of 0..5 steps over {200, 401 Negotiate, 401 Negotiate+reject token, 401 Basic, 302 same host, 302 other host, 500}, plus 307 same/other host, 308, 303, 301; weighted towards challenges and redirects; then a constant tail or, one time in four, a cycle of 2..3 non-final steps repeated for ever) x method {GET, HEAD, POST} x body {none, known-length, opaque stream} x size {0, 1, 4 KiB, 64 KiB, 1 MiB} x SPN {explicit, derived from an IP URL, derived from a localhost URL} x ticket etype (6) x session etype (6) x login {before, lazily} x entry point {Do, Get/Head/Post}; non-trivial = the part of the script a client can reach (up to the first 200/500/401-Basic/401-reject) contains a 401 Negotiate or a redirect")
 	r.Rapid("script", r.N(1500, 20000), func(t *rapid.T) {
 		n := rapid.IntRange(0, 5).Draw(t, "len")
 		c := Case{Tail: string(rapid.SampledFrom(httpsrv.Alphabet).Draw(t, "tail")), Method: rapid.SampledFrom(methods).Draw(t, "method"),
@@ -670,7 +763,12 @@ func TestProp(t *testing.T) {
 			TktEType: rapid.SampledFrom(ref.ETypes).Draw(t, "tkt-etype"), SessEType: rapid.SampledFrom(ref.ETypes).Draw(t, "sess-etype"),
 			Lazy: rapid.IntRange(0, 3).Draw(t, "lazy") == 0, Seed: rapid.Uint64Range(1, 1<<32).Draw(t, "seed"), Prefix: []string{}}
 		for i := 0; i < n; i++ {
-			c.Prefix = append(c.Prefix, string(rapid.SampledFrom(weightedSteps).Draw(t, "step")))
+			c.Prefix = append(c.Prefix, string(rapid.SampledFrom(weightedAll).Draw(t, "step")))
+		}
+		if rapid.IntRange(0, 3).Draw(t, "cyclic") == 0 {
+			for i, m := 0, rapid.IntRange(2, 3).Draw(t, "cycle-len"); i < m; i++ {
+				c.Cycle = append(c.Cycle, string(rapid.SampledFrom(nonFinal).Draw(t, "cycle-step")))
+			}
 		}
 		if c.BodyKind != "none" {
 			c.BodySize = rapid.SampledFrom(sizes).Draw(t, "size")
@@ -735,13 +833,48 @@ func TestProp(t *testing.T) {
 			}
 		}
 	}
+	// servers that never settle: every cycle of two or three non-final steps, after three short prefixes
+	cyc := scriptsOver([]httpsrv.Step{httpsrv.Challenge, httpsrv.RedirSame, httpsrv.RedirOther, httpsrv.Redir307Same}, 2, 3)
+	for _, cy := range cyc {
+		for pi, pre := range [][]string{{}, {"401-negotiate"}, {"302-same-host"}} {
+			for fi, p := range profiles {
+				k++
+				if fi == 1 && pi > 0 && r.Quick() {
+					continue
+				}
+				jobs = append(jobs, Case{Prefix: pre, Tail: "200", Cycle: cy, Method: p.method, BodyKind: p.bodyKind, BodySize: p.size, SPN: p.spn, TktEType: p.tkt, SessEType: p.ses,
+					Seed: r.Seed()*104729 + uint64(k)})
+				gens = append(gens, "enum-cycles")
+			}
+		}
+	}
+	r.Exhaustive("every cycle of 2..3 steps over {401 Negotiate, 302 same host, 302 other host, 307 same host} repeated for ever, after the prefixes {}, {401 Negotiate}, {302}")
+	// redirects that oblige the client to repeat method and body, mixed with challenges, under POST
+	keep := scriptsOver([]httpsrv.Step{httpsrv.Challenge, httpsrv.Redir307Same, httpsrv.Redir307Other, httpsrv.Redir308Same}, 1, 3)
+	type bodyProfile struct {
+		kind string
+		size int
+	}
+	bodies := []bodyProfile{{"bytes", 1}, {"bytes", 65537}, {"stream", 4096}}
+	if !r.Quick() {
+		bodies = append(bodies, bodyProfile{"bytes", 1 << 20}, bodyProfile{"stream", 65537})
+	}
+	for _, pre := range keep {
+		for bi, b := range bodies {
+			k++
+			jobs = append(jobs, Case{Prefix: pre, Tail: "200", Method: "POST", BodyKind: b.kind, BodySize: b.size, SPN: spns[(k+bi)%3], TktEType: ref.ETypes[k%6], SessEType: ref.ETypes[(k/6)%6],
+				Seed: r.Seed()*15485863 + uint64(k)})
+			gens = append(gens, "enum-307-308")
+		}
+	}
+	r.Exhaustive("every script of 1..3 steps over {401 Negotiate, 307 same host, 307 other host, 308 same host} then 200, under POST with bodies of 1 B, 64 KiB+1 and a 4 KiB stream (thorough: also 1 MiB and a 64 KiB+1 stream)")
 	for _, te := range ref.ETypes {
 		for _, se := range ref.ETypes {
 			jobs = append(jobs, Case{Prefix: []string{"401-negotiate"}, Tail: "200", Method: "POST", BodyKind: "bytes", BodySize: 100, SPN: "explicit", TktEType: te, SessEType: se, Seed: r.Seed() + uint64(te*100+se)})
 			gens = append(gens, "enum-etypes")
 		}
 	}
-	r.Rule(fmt.Sprintf("enum: every prefix of length <= %d x 7 tails at GET/no body/explicit SPN and every prefix of length <= %d x 7 tails at POST/4 KiB/derived SPN; four authentication scripts x method x body kind x size x SPN mode (quick: a seeded 1/4 slice without the 1 MiB bodies); every ticket etype x session etype on challenge-then-200",
+	r.Rule(fmt.Sprintf("enum: every prefix of length <= %d x 7 tails at GET/no body/explicit SPN and every prefix of length <= %d x 7 tails at POST/4 KiB/derived SPN; every non-settling cycle of 2..3 steps over {401 Negotiate, 302 same/other host, 307} after three prefixes; every script of 1..3 steps over {401 Negotiate, 307 same/other host, 308} under POST with three (thorough: five) bodies; four authentication scripts x method x body kind x size x SPN mode (quick: a seeded 1/4 slice without the 1 MiB bodies); every ticket etype x session etype on challenge-then-200",
 		profiles[0].maxLen, profiles[1].maxLen))
 	evid.Parallel(len(jobs), 64, func(i int) {
 		c := jobs[i]
